@@ -480,6 +480,25 @@ def rule_inert_members(ctx, rule='R05.9'):
                         bad = None
                         if k in ('ReturnStmt', 'BreakStmt', 'ContinueStmt', 'GotoStmt'):
                             bad = k.replace('Stmt', '').lower()
+                            # `if (latch) return;` at the top of a void helper whose remaining statements only warn and set the
+                            # latch is the same guard written as an early exit
+                            if k == 'ReturnStmt' and not x.get('inner') and 'void' in qtype(fn).split('(')[0]:
+                                top = cfront.body(fn).get('inner', [])
+                                if ifs in top:
+                                    rest = top[top.index(ifs) + 1:]
+                                    inert_only = True
+                                    for st_ in rest:
+                                        for y in walk(st_):
+                                            if is_assign(y):
+                                                lv_ = strip(y['inner'][0])
+                                                if not (lv_.get('kind') == 'MemberExpr' and lv_.get('name') in inert):
+                                                    inert_only = False
+                                            if y.get('kind') == 'CallExpr' and callee_name(y) not in ('reb_simulation_warning', 'reb_simulation_error', 'reb_message', 'printf', 'fprintf'):
+                                                inert_only = False
+                                            if y.get('kind') in ('ReturnStmt',) and y.get('inner'):
+                                                inert_only = False
+                                    if inert_only:
+                                        bad = None
                         elif is_assign(x):
                             lv = strip(x['inner'][0])
                             tgt = lv.get('name') if lv.get('kind') == 'MemberExpr' else None
